@@ -561,7 +561,10 @@ func famCli(tr *Trace, id *int, scratch, bin, behaviours string) int {
 	c.Vendor = "Vendor Inc\n" // (given to the tool through a variable whose value ends in a newline: used as it is)
 	c.Ov = map[string]*OvCfg{}
 	for _, f := range allFormats {
-		c.Ov[f] = &OvCfg{Depends: []string{"dep-for-" + f}, Umask: 0o27}
+		// ... and the architecture in the format's own spelling, set in the override block only: the package AND its
+		// conventional name follow the effective settings of the packaged format
+		c.Ov[f] = &OvCfg{Depends: []string{"dep-for-" + f}, Umask: 0o27,
+			NestedArch: map[string]string{"deb": "armhf", "rpm": "armv7hl", "apk": "armv7", "archlinux": "armv7h", "ipk": "arm_cortex-a7"}[f]}
 		nodes = append(nodes, ovScripts(c, f, []string{"preremove"})...) // ... and a script that only this format's block sets
 	}
 	exts := map[string]string{"deb": ".deb", "rpm": ".rpm", "apk": ".apk", "archlinux": ".pkg.tar.zst", "ipk": ".ipk"}
